@@ -256,7 +256,9 @@ def c01(tier, seed, replay, keep):
 
 
 def c02(tier, seed, replay, keep):
-    return engine_check("C02", tier, seed, replay, scen.c02, rule_signal, "4/C02", ASSUME_COMMON, keep)
+    return engine_check("C02", tier, seed, replay, scen.c02, rule_signal, "4/C02", ASSUME_COMMON + [
+        "three scenarios run MakeCheck under a real test deadline (-test.timeout=9s) with a 6 s falsifying test case: only the sub-test's status is observed"],
+        keep, more_traces=deadline_runner(scen.c02_deadline, tier, seed))
 
 
 def c05(tier, seed, replay, keep):
@@ -267,10 +269,10 @@ def c07(tier, seed, replay, keep):
     return engine_check("C07", tier, seed, replay, scen.c07, rule_tworuns, "4/C07", ASSUME_COMMON, keep)
 
 
-def c09(tier, seed, replay, keep):
+def deadline_runner(gen, tier, seed):
     def deadline_runs(binary, wd):
         # each of these needs its own process: the harness binary itself runs under a test deadline (-test.timeout)
-        sc = scen.c09_deadline(tier, seed)
+        sc = gen(tier, seed)
         paths = []
         with cf.ThreadPoolExecutor(max_workers=len(sc)) as ex:
             def one(j):
@@ -279,6 +281,11 @@ def c09(tier, seed, replay, keep):
                 return out
             paths = list(ex.map(one, range(len(sc))))
         return sc, paths
+    return deadline_runs
+
+
+def c09(tier, seed, replay, keep):
+    deadline_runs = deadline_runner(scen.c09_deadline, tier, seed)
     return engine_check("C09", tier, seed, replay, scen.c09, rule_any, "4/C09", ASSUME_COMMON + [
         "two scenarios run MakeCheck under a real test deadline (-test.timeout=9s, 300 ms per test case): timing-dependent, "
         "they only require the documented rule (early exit passes only with at least one valid case)"], keep, more_traces=deadline_runs)
